@@ -99,3 +99,29 @@ func (t *Timer) Stop() bool {
 	vsched.Op("timer.Stop", t.t.Obj, vsched.RD|vsched.WR, nil)
 	return t.t.Stop()
 }
+
+// remaining names of package time that library code may mention
+type Weekday = time.Weekday
+type ParseError = time.ParseError
+
+const (
+	Layout      = time.Layout
+	ANSIC       = time.ANSIC
+	UnixDate    = time.UnixDate
+	RubyDate    = time.RubyDate
+	RFC822      = time.RFC822
+	RFC822Z     = time.RFC822Z
+	RFC850      = time.RFC850
+	RFC1123     = time.RFC1123
+	RFC1123Z    = time.RFC1123Z
+	RFC3339     = time.RFC3339
+	RFC3339Nano = time.RFC3339Nano
+	Kitchen     = time.Kitchen
+	Stamp       = time.Stamp
+	StampMilli  = time.StampMilli
+	StampMicro  = time.StampMicro
+	StampNano   = time.StampNano
+	DateTime    = time.DateTime
+	DateOnly    = time.DateOnly
+	TimeOnly    = time.TimeOnly
+)
